@@ -214,7 +214,7 @@ def c04(tier):
 @prop("C13",
       functions=["cellToChildPos", "childPosToCell", "validateChildPos", "cellToChildrenSize", "cellToParent", "_ipow", "isPentagon", "iterStepChild"],
       bounds={"quick": "per (parentRes, childRes) pair with childRes-parentRes <= 2 (45 pairs): all valid parents x all int64 positions (FWD), all valid children (BWD, ORDER); error codes: all int resolutions; pentagon parents at the deep pairs (0,12) and (3,15) (FWD)",
-              "thorough": "all 136 (parentRes, childRes) pairs; pairs whose query exceeds the cap are listed as undecided"},
+              "thorough": "FWD: all 136 (parentRes, childRes) pairs; BWD: depth <= 9; ORDER: depth <= 8 (deeper BWD/ORDER queries gave no verdict in 3000 s and are not run); pairs whose query exceeds the cap are listed as undecided"},
       outside="pairs reported undecided (deep 7^k division chains)",
       assumptions=["iterator invariant of C04 for the ORDER clause"],
       stubs=[])
@@ -227,6 +227,8 @@ def c13(tier):
             us = {"_ipow.0": 6, "childPosToCell.0": dd + 2, "childPosToCell.1": dd + 2, "cellToChildPos.0": dd + 2, "cellToChildPos.1": dd + 2,
                   "iterStepChild.0": dd + 3, "cellToParent.0": c + 2, "harness.0": 17, "spec_parent.0": 17, "spec_size.0": 17, "firstNZpos.0": 17, "spec_valid_cell.0": 17, "spec_is_pentagon.0": 17}
             for mode in ("FWD", "BWD", "ORDER"):
+                if (mode == "BWD" and dd > 9) or (mode == "ORDER" and dd > 8):
+                    continue   # probed: no verdict within 3000 s (deep 7^k division chains); FWD covers these pairs
                 j = J("%s_%d_%d" % (mode.lower(), p, c), "C13_childpos.c", ["-D" + mode, "-DPRES=%d" % p, "-DCRES=%d" % c], unwind=17, us=us,
                       est=10 + 40 * dd, tier=t, timeout=3000 if tier == "thorough" else 900, sat="cadical",
                       bound="parentRes=%d childRes=%d" % (p, c), core=(dd <= 3))
